@@ -12,7 +12,9 @@ use tokio::{
 };
 use tracing::{Instrument, Level, debug, error, span, trace};
 
-use crate::client::{CommandResponder, ConnectionError, ConnectionEvent, Subsystem};
+use crate::client::{
+    CommandError, CommandResponder, ConnectionError, ConnectionEvent, Subsystem,
+};
 
 struct State<C> {
     loop_state: LoopState,
@@ -33,6 +35,25 @@ impl fmt::Debug for LoopState {
             LoopState::Idling => write!(f, "Idling"),
             LoopState::WaitingForCommandReply(_) => write!(f, "WaitingForCommandReply"),
         }
+    }
+}
+
+/// Report a failure of the connection to the caller of the command it interrupted.
+///
+/// If that caller is no longer waiting for its response (the future was dropped), the failure is
+/// emitted as a connection event instead, so it does not go unreported. Returns `true` in that
+/// case.
+fn report_failure(
+    events: &UnboundedSender<ConnectionEvent>,
+    responder: CommandResponder,
+    error: MpdProtocolError,
+) -> bool {
+    match responder.send(Err(error.into())) {
+        Err(Err(CommandError::Protocol(error))) => {
+            let _ = events.send(ConnectionEvent::ConnectionClosed(error.into()));
+            true
+        }
+        _ => false,
     }
 }
 
@@ -107,7 +128,16 @@ where
             let response = state.connection.receive().await.transpose().ok_or(())?;
             trace!("response to command received");
 
-            let _ = responder.send(response.map_err(Into::into));
+            match response {
+                Ok(response) => {
+                    let _ = responder.send(Ok(response));
+                }
+                Err(e) => {
+                    if report_failure(&state.events, responder, e) {
+                        return Err(());
+                    }
+                }
+            }
 
             let next_command = timeout(NEXT_COMMAND_IDLE_TIMEOUT, state.commands.recv());
 
@@ -119,7 +149,7 @@ where
                         Ok(_) => state.loop_state = LoopState::WaitingForCommandReply(responder),
                         Err(e) => {
                             error!(error = ?e, "failed to send command");
-                            let _ = responder.send(Err(e.into()));
+                            report_failure(&state.events, responder, e);
                             return Err(());
                         }
                     }
@@ -158,7 +188,7 @@ where
     // Cancel currently ongoing idle
     if let Err(e) = state.connection.send(cancel_idle()).await {
         error!(error = ?e, "failed to cancel idle prior to sending command");
-        let _ = responder.send(Err(e.into()));
+        report_failure(&state.events, responder, e);
         return Err(());
     }
 
@@ -188,7 +218,7 @@ where
         },
         Err(e) => {
             error!(error = ?e, "state change error prior to sending command");
-            let _ = responder.send(Err(e.into()));
+            report_failure(&state.events, responder, e);
             return Err(());
         }
     }
@@ -199,7 +229,7 @@ where
         Ok(_) => state.loop_state = LoopState::WaitingForCommandReply(responder),
         Err(e) => {
             error!(error = ?e, "failed to send command");
-            let _ = responder.send(Err(e.into()));
+            report_failure(&state.events, responder, e);
             return Err(());
         }
     }
